@@ -9,7 +9,7 @@
    says that the float64 with pattern b is finite and is exactly the integer x. *)
 From Coq Require Import List ZArith Bool Lia.
 From Verif Require Import Base.Word Base.Outcome Base.FBits Gen.Consts Gen.Leaf
-  C07.Model C07.Spec C07.ProofsLeaf C07.ProofsFrac C07.Proofs C07.ProofsJson.
+  C07.Model C07.Spec C07.ProofsLeaf C07.ProofsFrac C07.Proofs C07.ProofsJson C07.ProofsFloat.
 Import ListNotations.
 Local Open Scope Z_scope.
 
@@ -95,15 +95,83 @@ Theorem C07_frac_uint64 : forall (ui : Z) (neg : bool) (f : Z) (fok : bool) (x :
 Proof. exact hlp_uint64_frac. Qed.
 Print Assumptions C07_frac_uint64.
 
-(* float64 -> float32 (DecodeFloat32 of the binary drivers): the stored float32 is the
-   rounding of the decoded float64, and a finite value above MaxFloat32 is an error.
-   partial: that [f64_to_f32] is exact on representable values / within one ulp is
-   checked by correspondence and the math/big oracle only *)
-Theorem C07_float32_overflow_partial : forall (f x : Z),
-  0 <= f < 2 ^ 64 -> narrow_f32 (Ok f) = Ok x ->
-  x = f64_to_f32 f /\ (f64_finite f = true -> f64_abs f <= f64_maxf32).
-Proof. exact narrow_f32_ok. Qed.
-Print Assumptions C07_float32_overflow_partial.
+(* ---- float destinations ----
+   The conversions the code performs in hardware (int -> float64, float64 -> float32,
+   float32 -> float64; halfFloatToFloatBits for binary16) are the bit-level functions of
+   Base/FBits.v and C07/Model.v ([f64_of_int], [f64_to_f32], [f32_to_f64], [f16_to_f32]); they
+   are tied to the hardware / the Go function by the correspondence cases.  The theorems
+   say that what the decoder stores is, for ALL bit patterns and all integers the formats
+   carry, the IEEE-754 round-to-nearest-even image (exact for widenings):
+     [is_rne M s m]      : m is M / 2^s rounded to the nearest integer, ties to even
+                           (s <= 0: m = M * 2^-s exactly);
+     [f64_rne_of_int n x]: x is finite, has n's sign, and its significand/exponent satisfy
+                           M_x * 2^E_x = m * 2^q with q = log2|n| - 52 (the exponent of the last
+                           place of n in binary64) and is_rne |n| q m;
+     [f32_rne_of_f64 b x]: x is FINITE, has b's sign, and M_x * 2^E_x = m * 2^q with
+                           q = max (log2 M_b + E_b - 23) (-149) and is_rne M_b (q - E_b) m
+   i.e. at most half a unit in the last place away, hence within one ulp, and exact whenever
+   the value is representable ([is_rne_exact], [C07_float_narrow_exact]). *)
+
+(* (1) an integer item n (all four binary formats, every width) into float64 stores the
+   correctly rounded binary64 of n, exactly n when |n| <= 2^53; into float32 it stores the
+   correctly rounded binary32 of that binary64 (the code converts int -> float64 -> float32, so
+   for |n| > 2^53 the result is two roundings away from n: within one ulp, not always the
+   single-rounding result) and it is always finite *)
+Theorem C07_float_of_int : forall (f : binfmt) (bs : list Z) (n x : Z),
+  bytes_ok bs -> spec f bs = Some (NInt n) ->
+  (decode (drv f) KFloat64 bs = Ok x ->
+     x = f64_of_int n /\ f64_rne_of_int n x /\ (Z.abs n <= 2 ^ 53 -> f64_scaled x = Some (n * 2 ^ 1074))) /\
+  (decode (drv f) KFloat32 bs = Ok x ->
+     x = f64_to_f32 (f64_of_int n) /\ f64_rne_of_int n (f64_of_int n) /\ f32_rne_of_f64 (f64_of_int n) x).
+Proof. exact float_of_int_all. Qed.
+Print Assumptions C07_float_of_int.
+
+(* (2) a float64 item b into float32: NaN stays NaN, +-Inf stays +-Inf, a finite b is accepted
+   only when |b| <= MaxFloat32 and then stores the round-to-nearest-even binary32, which is finite
+   (no silent overflow to infinity) *)
+Theorem C07_float_narrow : forall (f : binfmt) (bs : list Z) (b x : Z),
+  bytes_ok bs -> spec f bs = Some (NF64 b) -> decode (drv f) KFloat32 bs = Ok x ->
+  x = f64_to_f32 b /\
+  (f64_isnan b = true -> f32_isnan x = true) /\
+  (f64_isinf b = true -> x = f64_sign b * 2 ^ 31 + f32_inf) /\
+  (f64_finite b = true -> f64_abs b <= f64_maxf32 /\ f32_rne_of_f64 b x).
+Proof. exact float_narrow_all. Qed.
+Print Assumptions C07_float_narrow.
+
+(* exact when representable: every binary32 value, widened to binary64, narrows back to itself
+   (all 2^32 patterns except NaNs, whose payload is not tracked) ... *)
+Theorem C07_float_narrow_exact : forall b : Z,
+  0 <= b < 2 ^ 32 -> f32_isnan b = false -> f64_to_f32 (f32_to_f64 b) = b.
+Proof. exact f32_roundtrip. Qed.
+Print Assumptions C07_float_narrow_exact.
+
+(* ... so a float32 item decoded into a float32 destination is stored unchanged *)
+Theorem C07_float32_same : forall (f : binfmt) (bs : list Z) (b x : Z),
+  bytes_ok bs -> spec f bs = Some (NF32 b) -> decode (drv f) KFloat32 bs = Ok x ->
+  (f32_isnan b = false -> x = b) /\ (f32_isnan b = true -> f32_isnan x = true).
+Proof. exact float32_same_all. Qed.
+Print Assumptions C07_float32_same.
+
+(* (3) float64 items into float64 are stored bit for bit; float32 and (cbor) half-float items
+   into float64 store exactly the same real value: [f64_scaled x = f32_scaled b] resp.
+   [f16_scaled h] (value * 2^1074 of the IEEE binary32 / binary16 pattern, C07/ProofsFloat.v),
+   infinities and NaNs are preserved *)
+Theorem C07_float_widen : forall (f : binfmt) (bs : list Z) (x : Z),
+  bytes_ok bs -> decode (drv f) KFloat64 bs = Ok x ->
+  match spec f bs with
+  | Some (NF64 b) => x = b
+  | Some (NF32 b) => x = f32_to_f64 b /\
+      (f32_finite b = true -> f64_scaled x = f32_scaled b) /\
+      (f32_isinf b = true -> x = f32_sign b * 2 ^ 63 + f64_inf) /\
+      (f32_isnan b = true -> f64_isnan x = true)
+  | Some (NF16 h) => x = f32_to_f64 (f16_to_f32 h) /\
+      (f16_bexp h <> 31 -> f64_scaled x = f16_scaled h) /\
+      (f16_bexp h = 31 -> f16_mant h = 0 -> x = f16_sign h * 2 ^ 63 + f64_inf) /\
+      (f16_bexp h = 31 -> f16_mant h <> 0 -> f64_isnan x = true)
+  | _ => True
+  end.
+Proof. exact float_widen_all. Qed.
+Print Assumptions C07_float_widen.
 
 (* json integer fast path (partial: only the exponent scaling step; readFloat's digit loop
    and parseUint64_simple are not translated yet, json float parsing belongs to C09):
@@ -142,15 +210,21 @@ Example C07_frac_nonvacuous :
   /\ noFrac64 13830554455654793216 = true /\ f64_to_i64 13830554455654793216 = -1.             (* -1.0 *)
 Proof. vm_compute. repeat apply conj; reflexivity. Qed.
 
-Example C07_float32_nonvacuous :
-  narrow_f32 (Ok 5183643170566569984) = Ok 2139095039           (* MaxFloat32 stays MaxFloat32 *)
-  /\ narrow_f32 (Ok 5183643170566569985) = Err EOverflow        (* the next float64 up is an error *)
-  /\ narrow_f32 (Ok f64_inf) = Ok f32_inf.
-Proof. vm_compute. repeat apply conj; reflexivity. Qed.
 
 Example C07_json_scale_nonvacuous :
   parseUint64_reader (mk_readFloatResult 2 19 false false false false true) = Ok (2, true)       (* 2e19: F07-4 *)
   /\ parseUint64_reader (mk_readFloatResult 1 19 false false false false true) = Ok (10 ^ 19, false)
   /\ parseUint64_reader (mk_readFloatResult 15 (-1) false false false false true) = Ok (15, true)  (* 1.5 *)
   /\ parseUint64_reader (mk_readFloatResult 150 (-1) false false false false true) = Ok (15, false).
+Proof. vm_compute. repeat apply conj; reflexivity. Qed.
+
+Example C07_float_nonvacuous :
+  decode cbor KFloat64 [27; 0; 32; 0; 0; 0; 0; 0; 1] = Ok 4845873199050653696      (* 2^53+1 -> 2^53 (tie to even) *)
+  /\ decode cbor KFloat64 [27; 0; 32; 0; 0; 0; 0; 0; 3] = Ok 4845873199050653698   (* 2^53+3 -> 2^53+4 *)
+  /\ decode cbor KFloat32 [26; 1; 0; 0; 1] = Ok 1266679808                         (* 2^24+1 -> 2^24 *)
+  /\ decode cbor KFloat64 [249; 60; 0] = Ok 4607182418800017408                    (* half 1.0 *)
+  /\ decode cbor KFloat64 [249; 0; 1] = Ok 4499096027743125504                     (* smallest half subnormal 2^-24 *)
+  /\ decode msgpack KFloat32 [203; 71; 239; 255; 255; 224; 0; 0; 0] = Ok 2139095039  (* MaxFloat32 *)
+  /\ decode msgpack KFloat32 [203; 71; 239; 255; 255; 240; 0; 0; 0] = Err EOverflow  (* halfway to 2^128 *)
+  /\ decode msgpack KFloat32 [203; 127; 240; 0; 0; 0; 0; 0; 0] = Ok f32_inf.
 Proof. vm_compute. repeat apply conj; reflexivity. Qed.
